@@ -16,7 +16,7 @@ from ..report import Run
 from ..values import (ELL, Const, DictV, ListV, PropsV, SchemaV, Spread, Sym, Term, TupleV, V, is_ell, is_nil)
 from ..visits import Config, configs_for, run_visit, substitutor_ctx
 from ..vtable import extract
-from .c04 import SCALARS, dict_results, result_props
+from .c04 import SCALARS, _prevalidation_reports_extra, dict_results, result_props
 from .c12 import validated
 
 ALLOWED_UPDATE = {"ListSchema": {"elements", "type"}, "DictSchema": {"keys"}, "AnySchema": {"types"},
@@ -56,6 +56,7 @@ def check(run: Run, prog: Program, model: Model, tier: str) -> None:
         "are dropped); W4 any widening (an alternative not derived by substitution from an original one). The set "
         "inclusion on concrete values is not decided."
         " An optional key dropped from a relaxed table and an exact element list that a carried max_len re-opens in the validator are widenings too.")
+    run.explanation += ' An empty closed table accepts only {}: W2-DICT reports keys added to it unless the pre-validation of that table reports undeclared keys.'
     run.rule_text = "obligations per (visit method, prop-set/shape) and mechanism; non-trivial = premises derived on interpreter paths"
     sub = model.visitors["Substitutor"]
     # ---------------------------------------------------------------- W1 scalars
@@ -135,8 +136,8 @@ def check(run: Run, prog: Program, model: Model, tier: str) -> None:
                 continue          # the original accepts every dict: nothing can widen
             had_rel = any(is_ell(k) for k, _ in orig.pairs())
             plain = [(k, tv) for k, tv in orig.pairs() if not is_ell(k)]
-            if not plain:
-                continue          # only `...: ...`: accepts every dict
+            if not plain and had_rel:
+                continue          # only `...: ...`: accepts every dict  (an EMPTY closed table accepts only {})
             for k, tv in plain:
                 got = tbl.lookup(k)
                 of = tv.items[1].value
@@ -162,7 +163,11 @@ def check(run: Run, prog: Program, model: Model, tier: str) -> None:
                 probs.append("a relaxed marker `...: ...` is introduced: undeclared keys become acceptable")
             extra = [k.key() for k, _ in tbl.pairs() if not is_ell(k) and orig.lookup(k) is None]
             if extra and not had_rel:
-                probs.append(f"keys {extra} unknown to the closed original are added")
+                # such a path is only feasible if the pre-validation lets a value with undeclared keys through
+                if _prevalidation_reports_extra(prog, model, cfg):
+                    continue
+                probs.append(f"keys {extra} unknown to the closed original are added (and the pre-validation of this "
+                             "table does not report undeclared keys)")
         if probs:
             run.violated("W2-DICT", construct, fd.loc, "; ".join(sorted(set(probs)))[:400],
                          witness="a dict the original rejects (missing key / extra key) is accepted by the result")
@@ -267,6 +272,11 @@ def check(run: Run, prog: Program, model: Model, tier: str) -> None:
 
 SU = "d42/substitution/_substitutor.py"
 MUTANTS = [
+    {"name": "free-form branch taken for an empty closed table and its pre-validation returns early (seeded C05-I)", "rule": "W2-DICT",
+     "edits": [("d42/substitution/_substitutor.py", "        if schema.props.keys is Nil or (len(schema.props.keys) == 1 and ... in schema.props.keys):", "        if schema.props.keys is Nil or all(is_ellipsis(key) for key in schema.props.keys):"),
+               ("d42/substitution/_validator.py", "        if schema.props.keys is Nil:\n            return result\n\n        for key, (val, is_optional) in schema.props.keys.items():\n            if is_ellipsis(key):", "        if (schema.props.keys is Nil) or (not schema.props.keys):\n            return result\n\n        for key, (val, is_optional) in schema.props.keys.items():\n            if is_ellipsis(key):")]},
+    {"name": "neutral: free-form test written with all(is_ellipsis) (the pre-validation still refuses extra keys of {})", "expect": "SILENT",
+     "edits": [("d42/substitution/_substitutor.py", "        if schema.props.keys is Nil or (len(schema.props.keys) == 1 and ... in schema.props.keys):", "        if schema.props.keys is Nil or all(is_ellipsis(key) for key in schema.props.keys):")]},
     {"name": "validator: a declared max_len re-opens an exact element list", "rule": "W3-LIST",
      "edits": [("d42/validation/_validator.py", "        if len(value) > len(elements):\n            for index in range(len(elements), len(value)):\n                result.add_error(ExtraElementValidationError(path, value, index))",
                 "        allowed = len(elements)\n        if schema.props.max_len is not Nil:\n            allowed = max(allowed, schema.props.max_len)\n        for index in range(allowed, len(value)):\n            result.add_error(ExtraElementValidationError(path, value, index))")]},
